@@ -41,6 +41,10 @@ type initCfg struct {
 	Prev  bool   `json:"prev"`  // R1 carries a recorded previous key pair (that of K0)
 	R1b   string `json:"r1b"`   // "", "before", "after": a second record under node id X
 	Plain bool   `json:"plain"` // the server storage is not a NodeIdLoader
+	// KeepOld keeps the superseded record R0 (whose key pair R1 recorded as its
+	// previous one) in storage under the same node id, "before" or "after" R1
+	// in lookup order: then two records can open a payload sealed with the old key.
+	KeepOld string `json:"keep_old"`
 }
 
 type state struct {
@@ -85,7 +89,12 @@ func (w *world) initial(ic initCfg) *state {
 			panic(err)
 		}
 		s.st.PutNodeInfo(r1)
-		s.st.DeleteRaw("nodeinfo", w.k["K0"].KeyId)
+		if ic.KeepOld == "" {
+			s.st.DeleteRaw("nodeinfo", w.k["K0"].KeyId)
+		} else {
+			r0.NodeId = "X"
+			s.st.PutNodeInfo(r0)
+		}
 	}
 	switch ic.R1b {
 	case "before":
@@ -94,6 +103,20 @@ func (w *world) initial(ic initCfg) *state {
 	case "after":
 		w.authorize(s.st, "K1b", "X")
 		s.st.NodeOrder = []string{w.k["K1"].KeyId, w.k["K1b"].KeyId}
+	}
+	if ic.Prev && ic.KeepOld != "" {
+		rest := []string{}
+		for _, id := range s.st.NodeOrder {
+			rest = append(rest, id)
+		}
+		if len(rest) == 0 {
+			rest = []string{w.k["K1"].KeyId}
+		}
+		if ic.KeepOld == "before" {
+			s.st.NodeOrder = append([]string{w.k["K0"].KeyId}, rest...)
+		} else {
+			s.st.NodeOrder = append(rest, w.k["K0"].KeyId)
+		}
 	}
 	w.authorize(s.st, "K2", "Y")
 	return s
@@ -342,10 +365,13 @@ func (w *world) send(s *state, plain bool, lbl string, req *types.RotateNodeCred
 	openedBy := []string{}
 	var inner *types.FetchNodeCredentialsResponse
 	var srcs []string
-	for _, kn := range []string{"K1", "K1b", "K2", "Kn1", "Kn2", "Kn3"} {
+	for _, kn := range []string{"K0", "K1", "K1b", "K2", "Kn1", "Kn2", "Kn3"} {
 		srcs = append(srcs, "cur:"+kn)
 	}
-	srcs = append(srcs, "prev:K1", "unrelated")
+	if s.st.NodeInfo(w.k["K0"].KeyId) == nil {
+		srcs = append(srcs, "prev:K1") // otherwise the same key material as cur:K0
+	}
+	srcs = append(srcs, "unrelated")
 	for _, src := range srcs {
 		c := w.source(s, src)
 		if c == nil {
@@ -496,8 +522,9 @@ func explore(c *engine.Ctx, r *engine.Report, ic initCfg) {
 }
 
 var inits = []initCfg{
-	{false, "", false}, {true, "", false}, {true, "before", false}, {true, "after", false}, {false, "before", false}, {false, "after", false},
-	{true, "before", true}, {false, "", true},
+	{Prev: false}, {Prev: true}, {Prev: true, R1b: "before"}, {Prev: true, R1b: "after"}, {R1b: "before"}, {R1b: "after"},
+	{Prev: true, R1b: "before", Plain: true}, {Plain: true},
+	{Prev: true, KeepOld: "after"}, {Prev: true, KeepOld: "before"}, {Prev: true, R1b: "after", KeepOld: "after"},
 }
 
 func run(c *engine.Ctx, r *engine.Report) {
@@ -538,10 +565,10 @@ func init() {
 	engine.Register(&engine.CheckDef{
 		ID:    "C10",
 		Level: "model_checking",
-		Rule: "BFS (quick depth 3, thorough 4) from 8 initial stores (previous key recorded or not; a second record under the node id before/after the first; NodeIdLoader or plain storage) over rotation requests {encrypting key: current of K1/K1b/K2/new key, recorded previous pair, unrelated} x {identification: key id of K1/K2/unknown/new, node id X, unknown node id} x {inner: fresh key, registered K1/K2, token-sized nonce, expired window, wrong signer, not a request}, replays of every honoured payload and removal of old records; " +
+		Rule: "BFS (quick depth 3, thorough 4) from 11 initial stores (previous key recorded or not; the superseded record still stored before/after its successor; a second record under the node id before/after the first; NodeIdLoader or plain storage) over rotation requests {encrypting key: current of K1/K1b/K2/new key, recorded previous pair, unrelated} x {identification: key id of K1/K2/unknown/new, node id X, unknown node id} x {inner: fresh key, registered K1/K2, token-sized nonce, expired window, wrong signer, not a request}, replays of every honoured payload and removal of old records; " +
 			"distinct_nontrivial = canonical states reached (records with node id / previous key / state, and the set of honoured payloads)",
 		Assumptions: []string{"removing the record a rotation created and then replaying that rotation is outside the alphabet (the quantifier lists replay and repeated rotation, not revocation)", "forged = encrypted under another pool key"},
-		Shards:      func(c *engine.Ctx) int { return 8 },
+		Shards:      func(c *engine.Ctx) int { return 11 },
 		Run:         run,
 		Replay:      replay,
 	})
